@@ -43,8 +43,10 @@ def six (chk : UInt32) : UInt32 :=
 def checksumSyms (chk : UInt32) : Bytes :=
   (List.range 6).map fun i => ((chk >>> (UInt32.ofNat ((5 - i) * 5))) &&& 0x1f).toUInt8
 
-/-- `bech32.Encode`; `none` = the Go function returns "". -/
+/-- `bech32.Encode`; `none` = the Go function returns "". The first guard (`len(hrp) < 1`) is /repo's
+    `fix:` aaaa0fae: before it `Encode("", data, m)` returned "1" ++ data ++ checksum, a string `Decode` refuses. -/
 def encode (hrp data : Bytes) (bech32m : Bool) : Option Bytes := do
+  if hrp.length < 1 then none
   let chk ← hrpHigh? hrp 1
   if hrp.length + 7 + data.length > 90 then none
   let chk := polymodStep chk
